@@ -636,6 +636,166 @@ theorem topology_meets_spec (base : Int) (fill : Fill) (n w : Nat) (m : Mesh)
 example : Spec 6 4 [[0, 1, 2, 3], [1, 4, 5]] (idMap 6) [[1, 2, 3, 0], [4, 5, 1, FILL]] := by decide
 example : ¬ Spec 6 4 [[0, 1, 2, 3], [1, 4, 5]] (idMap 6) [[0, 1, 2, 3], [1, 5, 4, FILL]] := by decide
 
+/-! ### the undeclared-base rule ("the base is the smallest real entry") -/
+
+theorem dialectOK_iff (d : UDialect) (n w : Nat) (m : Mesh) :
+    DialectOK d n w m ↔ DialectCore d n w m ∧ (d.declared = false → ∃ f ∈ m, 0 ∈ f) := by
+  unfold DialectOK DialectCore; exact (and_assoc).symm
+
+theorem lowest_spec (m : Mesh) (hne : m.flatten ≠ []) :
+    lowest m ∈ m.flatten ∧ ∀ v ∈ m.flatten, lowest m ≤ v := by
+  unfold lowest
+  cases h : minList (m.flatten.map Int.ofNat) with
+  | none =>
+    exfalso
+    cases hf : m.flatten with
+    | nil => exact hne hf
+    | cons a l =>
+      rw [hf] at h
+      simp only [List.map_cons] at h
+      unfold minList at h
+      cases h2 : minList (l.map Int.ofNat) <;> rw [h2] at h <;> simp at h
+  | some x =>
+    obtain ⟨hx, hle⟩ := minList_spec _ _ h
+    rcases List.mem_map.mp hx with ⟨v, hv, rfl⟩
+    simp only [Option.getD_some]
+    refine ⟨by simpa using hv, ?_⟩
+    intro u hu
+    have := hle (Int.ofNat u) (List.mem_map.mpr ⟨u, hu, rfl⟩)
+    simp only [Int.ofNat_eq_natCast, Int.toNat_natCast] at *
+    omega
+
+theorem map_eq_self_mem {α : Type} (g : α → α) (l : List α) (h : l.map g = l) :
+    ∀ x ∈ l, g x = x := by
+  induction l with
+  | nil => intro x hx; cases hx
+  | cons a l ih =>
+    simp only [List.map_cons, List.cons.injEq] at h
+    intro x hx
+    rcases List.mem_cons.mp hx with rfl | hx
+    · exact h.1
+    · exact ih h.2 x hx
+
+theorem padRow_inj (w : Nat) (f g : List Nat) (h : padRow w f = padRow w g) : f = g := by
+  have := congrArg faceOf h
+  rw [faceOf_padRow, faceOf_padRow] at this
+  exact List.map_injective_iff.mpr (fun a b hab => by simpa using hab) this
+
+theorem pad_inj (w : Nat) (m1 m2 : Mesh) (h : pad w m1 = pad w m2) : m1 = m2 := by
+  unfold pad at h
+  exact List.map_injective_iff.mpr (fun a b hab => padRow_inj w a b hab) h
+
+/-- **what the undeclared-base rule does**: a table written without `start_index` decodes to
+    its element lists counted from the LOWEST INDEX IT USES (whatever base it was written in). -/
+theorem ugrid_undeclared_decodes (d : UDialect) (n w : Nat) (m : Mesh) (hm : WFMesh n w m)
+    (hc : DialectCore d n w m) (hdecl : d.declared = false) :
+    decodeUgrid (encodeUgrid d w m) = .ok (pad w (rebase (lowest m) m)) := by
+  obtain ⟨base, declared, fill, store⟩ := d
+  simp only at hdecl
+  subst hdecl
+  have hok' : DialectOK ⟨base, true, fill, store⟩ n w m :=
+    (dialectOK_iff _ n w m).mpr ⟨hc, fun h => by cases h⟩
+  obtain ⟨hrep, hbad⟩ := replaceFill_encode ⟨base, true, fill, store⟩ n w m hm hok'
+  have hrep' : replaceFill (origFill (encodeUgrid ⟨base, false, fill, store⟩ w m))
+      (encodeUgrid ⟨base, false, fill, store⟩ w m).cells
+      = m.map (fun f => f.map (fun v => Int.ofNat v + base) ++ List.replicate (w - f.length) FILL) := hrep
+  have hbad' : hasBad (origFill (encodeUgrid ⟨base, false, fill, store⟩ w m))
+      (encodeUgrid ⟨base, false, fill, store⟩ w m).cells = false := hbad
+  have hb : 0 ≤ base := hc.1
+  have hF := FILL_neg
+  unfold decodeUgrid
+  simp only [hbad', Bool.false_eq_true, if_false, hrep']
+  congr 1
+  have hsa : (encodeUgrid ⟨base, false, fill, store⟩ w m).startAttr = none := rfl
+  rw [hsa]
+  by_cases hne : m.flatten = []
+  · -- no corner at all: every face is empty, impossible for a well-formed non-empty mesh
+    have hm0 : m = [] := by
+      cases m with
+      | nil => rfl
+      | cons f rest =>
+        have := (hm f (by simp)).1
+        cases f with
+        | nil => simp at this
+        | cons a f' => simp at hne
+    subst hm0; rfl
+  · obtain ⟨hmem, hle⟩ := lowest_spec m hne
+    have hstart : startOf none (m.map (fun f => f.map (fun v => Int.ofNat v + base)
+        ++ List.replicate (w - f.length) FILL)) = base + Int.ofNat (lowest m) := by
+      unfold startOf
+      simp only []
+      rw [minList_eq_some _ (base + Int.ofNat (lowest m))]
+      · rfl
+      · rw [mem_nonFill]
+        obtain ⟨f, hf, hvf⟩ := List.mem_flatten.mp hmem
+        refine ⟨⟨_, List.mem_map.mpr ⟨f, hf, rfl⟩, ?_⟩, ?_⟩
+        · apply List.mem_append_left
+          exact List.mem_map.mpr ⟨lowest m, hvf, by omega⟩
+        · have : (0 : Int) ≤ Int.ofNat (lowest m) := Int.natCast_nonneg _
+          omega
+      · intro x hx
+        rw [mem_nonFill] at hx
+        obtain ⟨⟨r, hr, hxr⟩, hnf⟩ := hx
+        rcases List.mem_map.mp hr with ⟨f, hf, rfl⟩
+        rcases List.mem_append.mp hxr with h | h
+        · rcases List.mem_map.mp h with ⟨v, hv, rfl⟩
+          have := hle v (List.mem_flatten.mpr ⟨f, hf, hv⟩)
+          simp only [Int.ofNat_eq_natCast]; omega
+        · exact absurd (List.mem_replicate.mp h).2 hnf
+    rw [hstart]
+    unfold shift pad rebase
+    rw [List.map_map, List.map_map]
+    apply List.map_congr_left
+    intro f hf
+    simp only [Function.comp]
+    unfold padRow
+    rw [shiftRow_append, shiftRow_fill, List.length_map, List.map_map]
+    congr 1
+    simp only [shiftRow, List.map_map]
+    apply List.map_congr_left
+    intro v hv
+    have hlv := hle v (List.mem_flatten.mpr ⟨f, hf, hv⟩)
+    have h0 : (0 : Int) ≤ Int.ofNat v := Int.natCast_nonneg v
+    have hne' : Int.ofNat v + base ≠ FILL := by omega
+    simp only [Function.comp, Int.ofNat_eq_natCast] at hne' ⊢
+    rw [if_neg hne']
+    omega
+
+/-- **when the rule is harmless**: an undeclared-base table decodes to exactly its element lists
+    IF AND ONLY IF it uses its lowest index 0 — this is the last clause of `DialectOK`, which is
+    therefore not an assumption of convenience but the exact boundary of decodability. -/
+theorem undeclared_base_unambiguous_iff (d : UDialect) (n w : Nat) (m : Mesh) (hm : WFMesh n w m)
+    (hc : DialectCore d n w m) (hdecl : d.declared = false) (hne : m ≠ []) :
+    decodeUgrid (encodeUgrid d w m) = .ok (pad w m) ↔ ∃ f ∈ m, 0 ∈ f := by
+  constructor
+  · intro h
+    rw [ugrid_undeclared_decodes d n w m hm hc hdecl] at h
+    have h2 : rebase (lowest m) m = m := pad_inj w _ _ (Except.ok.inj h)
+    have hfl : m.flatten ≠ [] := by
+      cases m with
+      | nil => exact absurd rfl hne
+      | cons f rest =>
+        have := (hm f (by simp)).1
+        cases f with
+        | nil => simp at this
+        | cons a f' => simp
+    obtain ⟨hmem, _⟩ := lowest_spec m hfl
+    obtain ⟨f, hf, hvf⟩ := List.mem_flatten.mp hmem
+    refine ⟨f, hf, ?_⟩
+    -- the row of `f` is unchanged by the rebasing, so its entry `lowest m` satisfies μ - μ = μ
+    unfold rebase at h2
+    have hrow : f.map (· - lowest m) = f := map_eq_self_mem _ _ h2 f hf
+    have hμ : lowest m - lowest m = lowest m := map_eq_self_mem _ _ hrow _ hvf
+    have : lowest m = 0 := by omega
+    rw [this] at hvf; exact hvf
+  · intro h0
+    exact ugrid_roundtrip d n w m hm ((dialectOK_iff d n w m).mpr ⟨hc, fun _ => h0⟩)
+
+example : (decodeUgrid (encodeUgrid ⟨1, false, .int (-1), .i32⟩ 3 [[2, 3, 4], [3, 5]])).toOption
+    = some [[0, 1, 2], [1, 3, FILL]] := by decide
+example : DialectCore ⟨1, false, .int (-1), .i32⟩ 6 3 [[2, 3, 4], [3, 5]] ∧ lowest [[2, 3, 4], [3, 5]] = 2
+    ∧ ¬ ∃ f ∈ ([[2, 3, 4], [3, 5]] : Mesh), 0 ∈ f := by decide
+
 /-! ### GEOS cube-sphere index arithmetic -/
 
 theorem zipWith_flatMap {α β γ δ : Type} (g : β → γ → δ) (l : List α) (F : α → List β)
@@ -1263,6 +1423,51 @@ theorem vertices_positions (w : Nat) (faces : List (List Key))
 example : vertsDecode [encVertsRow 4 [(0, 0), (10, 0), (10, 10)], [(10, 0), (20, 0), (20, 10), (10, 10)]]
     = ([(0, 0), (10, 0), (10, 10), (20, 0), (20, 10)], [[0, 1, 2, FILL], [1, 3, 4, 2]]) := by decide
 
+
+/-! ### format sniffing: what is rejected, and which reader an accepted dataset reaches -/
+
+/-- **rejects iff**: a dataset is rejected as "unknown format" exactly when it carries none of
+    the format markers (malformed-input stream of the harness). -/
+theorem sniff_rejects_iff (k : Markers) :
+    sniff k = none ↔
+      k.coord = false ∧ k.coordx = false ∧ k.gridCenterLon = false ∧ k.isUgrid = false ∧
+      k.verticesOnCell = false ∧ k.dimMaxNodePElement = false ∧
+      (k.dimNf && k.dimYC && k.dimXC) = false ∧ k.vertexOfCell = false := by
+  unfold sniff
+  constructor
+  · intro h
+    repeat' (split at h <;> try cases h)
+    simp_all
+  · rintro ⟨h1, h2, h3, h4, h5, h6, h7, h8⟩
+    simp [h1, h2, h3, h4, h5, h6, h7, h8]
+
+/-- **priority**: a dataset reaches the MPAS reader exactly when it has `verticesOnCell` and
+    none of the markers tested before it (Exodus, SCRIP, UGRID); likewise for the others. -/
+theorem sniff_mpas_iff (k : Markers) :
+    sniff k = some .mpas ↔
+      k.coord = false ∧ k.coordx = false ∧ k.gridCenterLon = false ∧ k.isUgrid = false ∧
+      k.verticesOnCell = true := by
+  unfold sniff
+  constructor
+  · intro h
+    repeat' (split at h <;> try cases h)
+    simp_all
+  · rintro ⟨h1, h2, h3, h4, h5⟩
+    simp [h1, h2, h3, h4, h5]
+
+theorem sniff_ugrid_iff (k : Markers) :
+    sniff k = some .ugrid ↔
+      k.coord = false ∧ k.coordx = false ∧ k.gridCenterLon = false ∧ k.isUgrid = true := by
+  unfold sniff
+  constructor
+  · intro h
+    repeat' (split at h <;> try cases h)
+    simp_all
+  · rintro ⟨h1, h2, h3, h4⟩
+    simp [h1, h2, h3, h4]
+
+example : sniff ⟨false, false, false, true, true, true, true, true, false, false, false, false, false⟩ = some .ugrid := by decide
+example : sniff ⟨false, false, false, false, true, true, true, false, false, true, true, false, false⟩ = none := by decide
 
 /-! ### longitude convention -/
 
